@@ -61,6 +61,8 @@ def gen_table(rng):
         row["cells"] = [cell(i, j) for j in range(ncols)]
     if spec.pop("declared", None) is not None or (ncols >= 2 and nrows >= 1 and rng.random() < 0.1):
         SP.make_ragged(spec, rng, cell)
+    if rng.random() < 0.2:
+        spec["decor"] = SP._decor("table", rng)      # header / footer / border / title styles, title justification
     spec["title"] = rng.choice([None, None, "TTT", "TITLE TITLE TITLE"])
     spec["caption"] = rng.choice([None, None, "CCC"])
     if rng.random() < 0.3:
